@@ -33,17 +33,43 @@ def program_list(name):
         for a, b in (("c16", "c8"), ("c4", "fsq"), ("lens", "ftri"), ("c8", "fbar"), ("blob", "fsq")):
             for o in ("|", "&", "-"):
                 out.append([o, L("Q." + a), L("Q." + b)])
+        # the factories themselves, with default and non-default parameters (each twice in the list)
+        for _ in (0, 1):
+            for n in (3, 5, 6):
+                out.append(["FACT", "regular_polygon", {"nsides": n}])
+                out.append(["FACT", "regular_polygon", {"nsides": n, "center": [3, -1]}])
+                out.append(["FACT", "regular_polygon", {"nsides": n, "radius": 2, "center": [0.5, 0.25]}])
+            out.append(["FACT", "circle", {"ndivangle": 5, "center": [2, 1]}])
+            out.append(["FACT", "circle", {"radius": 3, "ndivangle": 7}])
+            out.append(["FACT", "square", {"side": 2, "center": [1, 1]}])
+            out.append(["FACT", "square", {}])
+            out.append(["FACT", "triangle", {"side": 3, "center": [-1, 2]}])
     return out
+
+
+def evaluate(e):
+    from . import lib
+
+    if e[0] == "FACT":
+        kw = {k: (tuple(v) if isinstance(v, list) else v) for k, v in e[2].items()}
+        return getattr(lib.Primitive, e[1])(**kw)
+    return al.lib_eval(e)
+
+
+def name_of(e):
+    if e[0] == "FACT":
+        return "Primitive.%s(%s)" % (e[1], ", ".join("%s=%s" % kv for kv in sorted(e[2].items())))
+    return al.expr_id(e)
 
 
 def observe(e, with_float=True):
     from . import lib
 
     try:
-        R = al.lib_eval(e)
+        R = evaluate(e)
     except Exception as exc:  # noqa: BLE001
-        return {"expr": al.expr_id(e), "raises": type(exc).__name__}
-    obs = {"expr": al.expr_id(e), "sig": rg.rep_sig(R, with_cache=False)}
+        return {"expr": name_of(e), "raises": type(exc).__name__}
+    obs = {"expr": name_of(e), "sig": rg.rep_sig(R, with_cache=False)}
     if rg.kind_of(R) not in ("EmptyShape", "WholeShape"):
         ms = []
         for a, b in ((0, 0), (1, 0), (1, 1)):
@@ -79,9 +105,12 @@ def api_tour():
             lib.IntegratePlanar.area(seg)
             seg.invert()
             seg.derivate(2)
-    for n in (3, 5, 8):
+    for n in (3, 5, 6, 8):
         lib.Primitive.regular_polygon(n)
+        lib.Primitive.regular_polygon(n, center=(7, 4))
+        lib.Primitive.regular_polygon(n, radius=F(3, 2), center=(F(1, 2), -2))
         lib.Primitive.circle(radius=2, center=(1, 1), ndivangle=n + 1)
+        lib.Primitive.circle(center=(-3, 2), ndivangle=n + 2)
     lib.Primitive.square(3, (1, 2))
     lib.Primitive.triangle(2)
     a, b = lib.Primitive.circle(ndivangle=5), lib.Primitive.square(1.5, (0.5, 0.25))
